@@ -22,7 +22,7 @@ PROP = "C20"
 LEVEL = "exploration"
 
 YEARS = (2019, 2020, 2021, 2022)
-CONTENTS = ("-", "buy", "sell", "buy+sell", "move", "move0", "late-buy", "donate+move", "donate+income")
+CONTENTS = ("-", "buy", "sell", "buy+sell", "move", "move0", "late-buy", "donate+move", "donate+income", "same-instant")
 INCOME = {"AIRDROP", "HARDFORK", "INCOME", "INTEREST", "MINING", "STAKING", "WAGES"}
 
 
@@ -34,7 +34,7 @@ def content_rows(asset: str, year: int, content: str, n: int) -> List[Dict[str, 
     if content in ("sell", "buy+sell"):
         rows.append({"table": "out", "timestamp": f"{year}-06-{2 + n % 9:02d} 11:00:00+00:00", "exchange": "X2" if content == "sell" else "X1", "holder": "H1",
                      "transaction_type": "SELL", "spot_price": str(200 + year % 100), "crypto_out_no_fee": "1", "crypto_fee": "0.5", "unique_id": f"{asset}-{year}-sell"})
-    if content in ("donate+move", "donate+income"):
+    if content in ("donate+move", "donate+income", "same-instant"):
         rows.append({"table": "out", "timestamp": f"{year}-05-{2 + n % 9:02d} 11:00:00+00:00", "exchange": "X1", "holder": "H1", "transaction_type": "DONATE",
                      "spot_price": str(300 + year % 100), "crypto_out_no_fee": "0.5", "crypto_fee": "0", "unique_id": f"{asset}-{year}-donate"})
         if content == "donate+income":
@@ -44,6 +44,12 @@ def content_rows(asset: str, year: int, content: str, n: int) -> List[Dict[str, 
         rows.append({"table": "intra", "timestamp": f"{year}-09-{3 + n % 9:02d} 12:00:00+00:00", "from_exchange": "X1", "from_holder": "H1", "to_exchange": "X2",
                      "to_holder": "H1", "spot_price": str(150 + year % 100), "crypto_sent": "1", "crypto_received": "0.75" if content in ("move", "donate+move") else "1",
                      "unique_id": f"{asset}-{year}-move"})
+    if content == "same-instant":
+        # an income credit and a sale at the very same instant (written in two zones): both are rows of the year
+        rows.append({"table": "in", "timestamp": f"{year}-04-{5 + n % 9:02d} 00:00:00+00:00", "exchange": "X2", "holder": "H1", "transaction_type": "INTEREST",
+                     "spot_price": str(140 + year % 100), "crypto_in": "3", "unique_id": f"{asset}-{year}-interest"})
+        rows.append({"table": "out", "timestamp": f"{year}-04-{5 + n % 9:02d} 09:00:00+09:00", "exchange": "X1", "holder": "H1", "transaction_type": "SELL",
+                     "spot_price": str(240 + year % 100), "crypto_out_no_fee": "1", "crypto_fee": "0", "unique_id": f"{asset}-{year}-sell0"})
     if content == "late-buy":
         # 21:30 on Dec 31 at -05:00 is already Jan 1 in UTC: the transaction belongs to ITS OWN (local) year
         rows.append({"table": "in", "timestamp": f"{year}-12-31 21:30:00-05:00", "exchange": "X3", "holder": "H1", "transaction_type": "INTEREST",
@@ -59,11 +65,13 @@ def holdings_ok(pattern: Sequence[str]) -> bool:
             bal += 4
         if c in ("sell", "buy+sell"):
             bal -= Fraction(3, 2)
-        if c in ("donate+move", "donate+income"):
+        if c in ("donate+move", "donate+income", "same-instant"):
             bal -= Fraction(1, 2)
         if c in ("move", "donate+move"):
             bal -= Fraction(1, 4)
         if c == "late-buy":
+            bal += 2
+        if c == "same-instant":
             bal += 2
         if bal < 0:
             return False
@@ -360,7 +368,7 @@ def main(tier: str, budget_s: Optional[float] = None) -> int:
         "summary_lines_checked": total.get("summary_lines"),
         "rule": (
             "asset B1: every assignment year 2019..2022 -> {nothing, buy, sell, transfer with fee} that never over-spends, plus (quick) every 3-year / "
-            "(thorough) every 4-year assignment over the 9-item menu (buy+sell, fee-less transfer, a Dec 31 purchase at -05:00, a donation followed by a fee-bearing transfer / by staking income); x second asset "
+            "(thorough) every 4-year assignment over the 10-item menu (buy+sell, fee-less transfer, a Dec 31 purchase at -05:00, a donation followed by a fee-bearing transfer / by staking income); x second asset "
             "(none or one of 4 fixed patterns, rows in the opposite order) x row order (years first seen in / out of order) x language en / kl. One "
             "evaluation = one real tax_report_jp generation read back. non-trivial = sparse or disposal-only years, or two assets"
         ),
